@@ -50,6 +50,7 @@ def tasks(tier, seed):
     # ... and deeper over three tokens (text, an SGR sequence, a non-SGR sequence): up to nine / eleven pieces
     for a in range(3):
         out.append({'kind': 'toks3', 'first': a, 'n': 9 if tier == 'quick' else 11})
+    out.append({'kind': 'finals'})
     m = len(SYMS) + len(EXTRA)
     for a in range(m):
         for b in range(m):
@@ -156,6 +157,13 @@ def run_task(task, acc):
         strings = (p_ + core[task['first']] + ''.join(t) for p_ in pre for k in range(0, task['n']) for t in itertools.product(core, repeat=k))
     elif task['kind'] == 'toks':
         strings = (TOKS[task['first']] + ''.join(t) for k in range(0, task['n']) for t in itertools.product(TOKS, repeat=k))
+    elif task['kind'] == 'finals':
+        # every final byte 0x40-0x7E (and its two neighbours) in fixed frames: a final byte may be special to whatever the
+        # implementation uses to put sequences back together ('{', '}', '%', '\\' ...)
+        strings = []
+        for f in range(0x3f, 0x80):
+            c = chr(f)
+            strings += ['a\x1b[1;2' + c + 'b', '\x1b[' + c, 'a\x1b[3' + c + '\x1b[m' + 'b\x1b[4' + c, '\x1b[' + c + c + '\x1b[1' + c]
     elif task['kind'] == 'toks3':
         T3 = [TOKS[0], TOKS[2], TOKS[3]]
         strings = (T3[task['first']] + ''.join(t) for k in range(0, task['n']) for t in itertools.product(T3, repeat=k))
